@@ -62,3 +62,4 @@ virtual class Box : geo::Base<T> {
 };
 namespace deep { class Inner : geo::Point { Inner(); }; double k = 2; enum Mode { M1 }; typedef geo::Box<geo::Point, int> BoxPI; class Fwd2; }
 }
+void fnested(std::vector<std::pair<size_t, geo::Point>> a, std::map<string, std::vector<geo::Point>> b);
